@@ -161,3 +161,272 @@ def simple_config(n=3, **sv):
             {'name': 'y', 'start_sequence': 2, 'expected_loading': 10, 'identifiers': '*'}]}]}
     return {'nodes': nodes, 'instances': instances, 'supvisors': supv, 'groups': groups, 'rules': rules,
             'children': {'*': {}}, 'latency': {'lo': 0.0002, 'hi': 0.02}}
+
+
+# ---------------------------------------------------------------------------------------------------
+# seeded generators (configuration swarm)
+def pick(rng, seq):
+    return seq[rng.randrange(len(seq))]
+
+
+def gen_topology(rng, prof):
+    n_inst = pick(rng, prof.get('n_inst', [2, 3, 3, 4, 5]))
+    if rng.random() < prof.get('p_shared_node', 0.3) and n_inst > 1:
+        n_nodes = rng.randint(1, n_inst - 1)
+    else:
+        n_nodes = n_inst
+    nodes = []
+    for i in range(n_nodes):
+        skew = rng.uniform(0.0, 5.0)
+        if rng.random() < prof.get('p_big_skew', 0.15):
+            skew += pick(rng, [-3600.0, -60.0, 60.0, 3600.0])
+        nodes.append({'host': 'host%d' % (i + 1), 'ip': '10.0.0.%d' % (i + 1), 'machine': 0x0a0000000010 + i,
+                      'skew': skew, 'mono': rng.uniform(50.0, 90000.0)})
+    names = ['sv%02d' % k for k in rng.sample(range(1, 30), n_inst)]
+    instances = []
+    ports = {}
+    for i in range(n_inst):
+        node = i if i < n_nodes else rng.randrange(n_nodes)
+        ports[node] = ports.get(node, 60000) + 1
+        instances.append({'nick': names[i], 'node': node, 'port': ports[node]})
+    return nodes, instances
+
+
+def gen_supvisors_options(rng, prof, instances):
+    nicks = [s['nick'] for s in instances]
+    synchro_pool = prof.get('synchro_pool', SYNCHRO)
+    k = rng.randint(1, min(3, len(synchro_pool)))
+    synchro = rng.sample(synchro_pool, k)
+    if prof.get('need_timeout') and 'TIMEOUT' not in synchro:
+        synchro.append('TIMEOUT')
+    core = []
+    if rng.random() < prof.get('p_core', 0.4):
+        core = rng.sample(nicks, rng.randint(1, max(1, len(nicks) - 1)))
+    if 'CORE' in synchro and not core:
+        core = [pick(rng, nicks)]
+    sv = {'synchro_options': synchro,
+          'synchro_timeout': pick(rng, prof.get('synchro_timeout', [15, 20, 30])),
+          'core_identifiers': core,
+          'inactivity_ticks': pick(rng, prof.get('inactivity_ticks', [2, 2, 3, 4])),
+          'auto_fence': rng.random() < prof.get('p_auto_fence', 0.3),
+          'starting_strategy': pick(rng, prof.get('starting_strategies', STARTING_STRATEGIES)),
+          'conciliation_strategy': pick(rng, prof.get('conciliation_strategies', CONCILIATION_STRATEGIES)),
+          'supvisors_failure_strategy': pick(rng, prof.get('supvisors_failure_strategies', ['CONTINUE'] * 4
+                                                           + ['RESYNC', 'SHUTDOWN']))}
+    return sv
+
+
+def gen_groups_rules(rng, prof, instances):
+    """ Supervisor groups/programs, the rules file and the child scripts. """
+    nicks = [s['nick'] for s in instances]
+    n_groups = pick(rng, prof.get('n_groups', [1, 2, 2, 3]))
+    groups, apps, children = [], [], {}
+    loads = prof.get('loads', [0, 5, 10, 20, 30, 50])
+    for g in range(n_groups):
+        gname = 'app%d' % (g + 1)
+        n_prog = pick(rng, prof.get('n_programs', [1, 2, 3, 4]))
+        managed = rng.random() < prof.get('p_managed', 0.85)
+        programs, prules = [], []
+        for p in range(n_prog):
+            pname = 'p%d%s' % (g + 1, 'abcdefgh'[p])
+            numprocs = 1 if rng.random() > prof.get('p_numprocs', 0.15) else rng.randint(2, 3)
+            startsecs = pick(rng, prof.get('startsecs', [0, 1, 1, 2, 4, 8]))
+            prog = {'name': pname, 'numprocs': numprocs, 'startsecs': startsecs,
+                    'stopwaitsecs': pick(rng, prof.get('stopwaitsecs', [1, 2, 4, 8])),
+                    'startretries': pick(rng, prof.get('startretries', [0, 1, 2])),
+                    'autostart': rng.random() < prof.get('p_autostart', 0.05),
+                    'autorestart': pick(rng, prof.get('autorestart', ['false'] * 5 + ['unexpected', 'true']))}
+            programs.append(prog)
+            # child behaviour
+            r = rng.random()
+            script = {}
+            kinds = prof.get('child_kinds', {'ok': 0.7, 'exit_late': 0.08, 'exit_early': 0.08, 'backoff_then_ok': 0.05,
+                                             'exec_fail': 0.04, 'ignore_stop': 0.05})
+            acc = 0.0
+            chosen = 'ok'
+            for kname, w in kinds.items():
+                acc += w
+                if r < acc:
+                    chosen = kname
+                    break
+            if chosen == 'exit_late':
+                script = {'exit_after': startsecs + rng.uniform(3.0, 40.0), 'exit_code': pick(rng, [0, 0, 1, 2])}
+            elif chosen == 'exit_early':
+                script = {'exit_after': rng.uniform(0.0, max(0.2, startsecs * 0.8)), 'exit_code': pick(rng, [0, 1])}
+            elif chosen == 'backoff_then_ok':
+                script = {'seq': [{'exit_after': 0.05, 'exit_code': 1}] * rng.randint(1, 2) + [{}]}
+            elif chosen == 'exec_fail':
+                script = {'exec_fail': True}
+            elif chosen == 'ignore_stop':
+                script = {'on_stop': ['ignore']}
+            elif chosen == 'slow_stop':
+                script = {'on_stop': ['exit', rng.uniform(0.5, 6.0)]}
+            if script:
+                children['%s:%s' % (gname, pname)] = script
+            if managed:
+                rule = {'name': pname} if numprocs == 1 else {'pattern': pname + '_'}
+                if rng.random() < prof.get('p_sequenced', 0.8):
+                    rule['start_sequence'] = rng.randint(1, prof.get('max_seq', 3))
+                    if rng.random() < 0.4:
+                        rule['stop_sequence'] = rng.randint(0, prof.get('max_seq', 3))
+                    if rng.random() < 0.5:
+                        rule['required'] = True
+                if rng.random() < prof.get('p_wait_exit', 0.1) and 'exit_after' in script \
+                        and script.get('exit_code', 0) == 0:
+                    rule['wait_exit'] = True
+                rule['expected_loading'] = pick(rng, loads)
+                r2 = rng.random()
+                if r2 < prof.get('p_ident_rule', 0.5):
+                    k = rng.randint(1, len(nicks))
+                    rule['identifiers'] = ','.join(rng.sample(nicks, k))
+                elif r2 < prof.get('p_ident_rule', 0.5) + 0.1 and numprocs > 1:
+                    rule['identifiers'] = pick(rng, ['#', '@']) + ',' + ','.join(rng.sample(nicks, len(nicks)))
+                else:
+                    rule['identifiers'] = '*'
+                if rng.random() < 0.5:
+                    rule['running_failure_strategy'] = pick(rng, prof.get('running_failure', RUNNING_FAILURE[:4]))
+                if rng.random() < 0.3:
+                    rule['starting_failure_strategy'] = pick(rng, STARTING_FAILURE)
+                prules.append(rule)
+        groups.append({'name': gname, 'programs': programs})
+        if managed:
+            app = {'name': gname, 'programs': prules}
+            if rng.random() < prof.get('p_app_sequenced', 0.85):
+                app['start_sequence'] = rng.randint(1, prof.get('max_app_seq', 2))
+                if rng.random() < 0.3:
+                    app['stop_sequence'] = rng.randint(0, 2)
+            app['distribution'] = pick(rng, prof.get('distributions', ['ALL_INSTANCES'] * 4 + DISTRIBUTIONS[1:]))
+            if app['distribution'] != 'ALL_INSTANCES' or rng.random() < 0.2:
+                k = rng.randint(1, len(nicks))
+                app['identifiers'] = pick(rng, ['*', ','.join(rng.sample(nicks, k))])
+            if rng.random() < 0.5:
+                app['starting_strategy'] = pick(rng, prof.get('starting_strategies', STARTING_STRATEGIES))
+            if rng.random() < 0.5:
+                app['starting_failure_strategy'] = pick(rng, STARTING_FAILURE)
+            if rng.random() < 0.5:
+                app['running_failure_strategy'] = pick(rng, prof.get('running_failure', RUNNING_FAILURE[:4]))
+            apps.append(app)
+    return groups, {'applications': apps}, children
+
+
+def gen_config(rng, prof):
+    nodes, instances = gen_topology(rng, prof)
+    sv = gen_supvisors_options(rng, prof, instances)
+    groups, rules, children = gen_groups_rules(rng, prof, instances)
+    # instances of the cluster that do not know some programs / have them disabled
+    all_progs = ['%s:%s' % (g['name'], p['name']) for g in groups for p in g['programs']]
+    for spec in instances:
+        if rng.random() < prof.get('p_absent', 0.15) and all_progs:
+            spec['absent_programs'] = rng.sample(all_progs, rng.randint(1, max(1, len(all_progs) // 2)))
+        if rng.random() < prof.get('p_disabled', 0.1) and all_progs:
+            spec['disabled'] = [pick(rng, all_progs).split(':')[1]]
+    lat = pick(rng, prof.get('latencies', [{'lo': 0.0002, 'hi': 0.02}] * 3 + [{'lo': 0.001, 'hi': 0.3},
+                                                                              {'lo': 0.01, 'hi': 1.5}]))
+    return {'nodes': nodes, 'instances': instances, 'supvisors': sv, 'groups': groups, 'rules': rules,
+            'children': children, 'latency': lat}
+
+
+# ---------------------------------------------------------------------------------------------------
+# plans
+def namespecs_of(config):
+    out = []
+    for g in config['groups']:
+        for p in g['programs']:
+            n = p.get('numprocs', 1)
+            if n == 1:
+                out.append('%s:%s' % (g['name'], p['name']))
+            else:
+                out.extend('%s:%s_%02d' % (g['name'], p['name'], k) for k in range(n))
+    return out
+
+
+def gen_boots(rng, prof, config):
+    plan = []
+    for spec in config['instances']:
+        t = 0.0
+        if rng.random() < prof.get('p_late_boot', 0.25):
+            t = rng.uniform(3.0, prof.get('late_boot_max', 90.0))
+        else:
+            t = rng.uniform(0.0, 2.0)
+        plan.append({'t': round(t, 3), 'kind': 'boot', 'inst': spec['nick']})
+    # at least one instance boots early
+    min(plan, key=lambda i: i['t'])['t'] = 0.0
+    return plan
+
+
+DEFAULT_FAULT_WEIGHTS = {'crash': 2, 'restart': 3, 'partition': 2, 'stall': 1, 'slow': 1, 'clock_jump': 0.5,
+                         'child_exit': 2}
+TRIGGER_STATES = ['ELECTION', 'DISTRIBUTION', 'OPERATION', 'CONCILIATION', 'RESTARTING', 'SHUTTING_DOWN',
+                  'SYNCHRONIZATION']
+
+
+def _weighted(rng, weights):
+    total = sum(weights.values())
+    r = rng.random() * total
+    acc = 0.0
+    for k, w in weights.items():
+        acc += w
+        if r < acc:
+            return k
+    return next(iter(weights))
+
+
+def gen_faults(rng, prof, config):
+    nicks = [s['nick'] for s in config['instances']]
+    t0, t1 = prof.get('fault_window', (20.0, 200.0))
+    n = rng.randint(prof.get('min_faults', 0), prof.get('max_faults', 4))
+    weights = prof.get('fault_weights', DEFAULT_FAULT_WEIGHTS)
+    plan = []
+    for _ in range(n):
+        kind = _weighted(rng, weights)
+        item = {'kind': kind}
+        if rng.random() < prof.get('p_trigger', 0.3):
+            item['trigger'] = {'state': pick(rng, prof.get('trigger_states', TRIGGER_STATES)), 'inst': '*',
+                               'delay': round(rng.uniform(0.0, 4.0), 3), 'after': round(rng.uniform(0.0, t0), 3)}
+            victim = pick(rng, ['$trigger', '$master', '$nonmaster', pick(rng, nicks)])
+        else:
+            item['t'] = round(rng.uniform(t0, t1), 3)
+            victim = pick(rng, nicks + ['$master'])
+        if kind == 'crash':
+            item['inst'] = victim
+        elif kind == 'restart':
+            item['inst'] = victim
+            item['delay'] = round(pick(rng, [rng.uniform(0.3, 4.0), rng.uniform(4.0, 40.0)]), 3)
+        elif kind == 'partition':
+            if len(nicks) < 2:
+                continue
+            k = rng.randint(1, len(nicks) - 1)
+            side = rng.sample(nicks, k)
+            other = [x for x in nicks if x not in side]
+            directed = rng.random() < 0.25
+            pairs = [[a, b] for a in side for b in other]
+            if not directed:
+                pairs += [[b, a] for a in side for b in other]
+            item['pairs'] = pairs
+            item['mode'] = pick(rng, ['refuse', 'refuse', 'blackhole'])
+            if item['mode'] == 'blackhole':
+                item['tcp_timeout'] = round(rng.uniform(10.0, 90.0), 1)
+            if rng.random() < prof.get('p_heal', 0.8) and 't' in item:
+                plan.append({'t': round(min(t1, item['t'] + rng.uniform(3.0, 80.0)), 3), 'kind': 'heal',
+                             'pairs': pairs})
+        elif kind == 'stall':
+            item['inst'] = victim
+            item['d'] = round(rng.uniform(1.0, prof.get('max_stall', 25.0)), 3)
+        elif kind == 'slow':
+            if len(nicks) < 2:
+                continue
+            a, b = rng.sample(nicks, 2)
+            item.update({'src': a, 'dst': b, 'extra': round(rng.uniform(0.5, 8.0), 3),
+                         'd': round(rng.uniform(5.0, 40.0), 3)})
+        elif kind == 'clock_jump':
+            item['node'] = rng.randrange(len(config['nodes']))
+            item['delta'] = pick(rng, [-3600.0, -60.0, -7.0, -1.0, 1.0, 7.0, 60.0, 3600.0])
+        elif kind == 'child_exit':
+            item['inst'] = victim
+            item['pick'] = rng.randrange(8)
+            item['code'] = pick(rng, [0, 1, 1, 2])
+        plan.append(item)
+    # a partition left open at the end of the window is healed or not
+    if any(i['kind'] == 'partition' for i in plan) and rng.random() < prof.get('p_final_heal', 0.7):
+        plan.append({'t': t1, 'kind': 'heal', 'pairs': None})
+    return plan
